@@ -12,3 +12,5 @@ import MhlModel.Time
 import MhlModel.Updater
 import MhlModel.Crash
 import MhlModel.Xml
+import MhlModel.XsdCore
+import MhlModel.Gen.Xsd
